@@ -30,6 +30,9 @@ CHECKS = {
     "C02": dict(level="exploration", technique=DIFF + " (independent big-step evaluator written from the book); output trace comparison through a recording writer; effect probes",
                 text="held on the executions observed: typed random core programs (depth <= 6, <= 14 declarations, all surface forms randomised) agree binding by binding and output line by output line with an independent evaluator; flat operator pairs/triples agree with the documented grouping; operator/method/index sugar and user overloads of operator names take effect; textual effect probes show each argument evaluated once, left to right, and only the documented short-circuit functions skipping one",
                 note="trusts the reference evaluator (xrv/corelang.py); after an error argument the remaining arguments may or may not be evaluated (both accepted); floats and big ints are out of this fragment (C13/C14)"),
+    "C08": dict(level="fault_enumeration", technique="runtime monitoring: limit sweep (every limit value up to the need placed) with outcome oracle from the reference evaluator / event tally; counter-vs-event-log conservation",
+                text="for generated core programs (exact call count and nesting depth from the reference evaluator), recursive skeletons (calls/depth/tail iterations known in closed form), searching builtins (elements examined known) and library functions written in the language (need learnt from the hook's event tally), every limit value from 1 to need+2 is placed: the outcome is the right violation exactly at the documented threshold and otherwise the unlimited result; the limit counter equals the tally of user-call events; run/run/reset/run host histories behave as the budget arithmetic predicts",
+                note="thresholds as read from limits.md (Appendix A of DESIGN.md); quick tier places a stratified subset of limit values that always contains need-1, need, need+1"),
 }
 REASON_PENDING = "check under construction in this round (not yet claimed)"
 
